@@ -269,16 +269,34 @@ def runSeq (step : T → Action T V E) : List Nat → Runtime T V E → RunResul
 
 /-- An embedder with host functions: one entry per `run_n_steps` call — the budget and whether the
     pending host calls are serviced after the call (`false` = the host is slow: it calls again first).
-    Result: host state (e.g. the output so far), runtime, total `steps_consumed`, last status. -/
+    It stops at the call in which the main thread finishes or is reported failed.
+    Result: host state (e.g. the output so far), runtime, total `steps_consumed`, status of the last call. -/
 def drive {H : Type} (step : T → Action T V E) (host : H → Nat → T → H × T) :
-    List (Nat × Bool) → H → Runtime T V E → Nat → H × Runtime T V E × Nat
-  | [], h, r, n => (h, r, n)
+    List (Nat × Bool) → H → Runtime T V E → Nat → H × Runtime T V E × Nat × Option (Status E)
+  | [], h, r, n => (h, r, n, none)
   | (b, sv) :: rest, h, r, n =>
     let x := runN step b r
-    if sv then
-      let y := serviceAll host h x.rt
-      drive step host rest y.1 y.2 (n + x.steps)
-    else drive step host rest h x.rt (n + x.steps)
+    match x.status with
+    | .done => (h, x.rt, n + x.steps, some .done)
+    | .mainError e => (h, x.rt, n + x.steps, some (.mainError e))
+    | st =>
+      match rest with
+      | [] => (if sv then (serviceAll host h x.rt).1 else h, if sv then (serviceAll host h x.rt).2 else x.rt,
+               n + x.steps, some st)
+      | _ =>
+        if sv then drive step host rest (serviceAll host h x.rt).1 (serviceAll host h x.rt).2 (n + x.steps)
+        else drive step host rest h x.rt (n + x.steps)
+
+/-- The reference embedder: service whatever is pending, then `run_n_steps(1)`. -/
+def tick {H : Type} (step : T → Action T V E) (host : H → Nat → T → H × T) (x : H × Runtime T V E) :
+    H × Runtime T V E :=
+  ((serviceAll host x.1 x.2).1, (runN step 1 (serviceAll host x.1 x.2).2).rt)
+
+/-- `n` instructions under the reference embedder -/
+def canon {H : Type} (step : T → Action T V E) (host : H → Nat → T → H × T) :
+    Nat → H × Runtime T V E → H × Runtime T V E
+  | 0, x => x
+  | n + 1, x => canon step host n (tick step host x)
 
 end
 end Abra.Sched
